@@ -70,6 +70,12 @@ func IllFormed(v *Vector, thorough bool) []Variant {
 			for _, t := range nonNumericInt {
 				add(t.class, s.Name+"="+strconv.Quote(t.tok), argvValue(replaced(v.Argv, i, t.tok), -1))
 			}
+			if s.Kind == KPosInt {
+				// an expiry must be positive: 0 and negative values are out of range
+				for _, tok := range []string{"0", "-1", "-9223372036854775808"} {
+					add("non-positive-expiry", s.Name+"="+tok, argvValue(replaced(v.Argv, i, tok), -1))
+				}
+			}
 		case KFloat:
 			for _, t := range nonNumericFloat {
 				add(t.class, s.Name+"="+strconv.Quote(t.tok), argvValue(replaced(v.Argv, i, t.tok), -1))
